@@ -1142,3 +1142,5 @@ B('C14', 'nat_const_less_eq offered for numerals of any type', 'data/nat.py',
   "        return m.get_type() == NatType and m.is_number() and n.is_number() and m.dest_number() <= n.dest_number()", "        return m.is_number() and n.is_number() and m.dest_number() <= n.dest_number()", 'C14.S11', 'nat_const_less_eq')
 N('C04', 'nat_const_ineq tests the type with is_nat', 'data/nat.py',
   "        return m.get_type() == NatType and m.is_number() and n.is_number() and m.dest_number() != n.dest_number()", "        if not m.is_nat():\n            return False\n        return m.is_number() and n.is_number() and m.dest_number() != n.dest_number()")
+B('C05', 'nat_eval takes the value of any numeral', 'data/nat.py',
+  "        n = t.dest_number()\n        if not (isinstance(n, int) and n >= 0):\n            raise ConvException('nat_eval: %s' % str(t))\n        return n", "        n = t.dest_number()\n        return n", 'C05.T10', 'numeral-leaf')
